@@ -275,6 +275,9 @@ fn case_generic<F: Fl>(c: &Case, obs: &mut Obs) -> PResult {
                     if let Err(msg) = negated_eq::<F>(x, y) {
                         return crate::engine::fail(format!("C16/negation/{name}/{kn}"), format!("{}: {msg}", F::NAME));
                     }
+                    // "exchanges upper and lower one-sidedness": both results must have the kind that was asked for
+                    let (ky, _, _) = bounds(y);
+                    ensure!(ky == c.conf.kind, format!("C16/negation/{name}/kind"), "{}: CI({:?}, -x) = {y:?} does not have the requested kind", F::NAME, c.conf);
                 }
                 (x, y) => return crate::engine::fail(format!("C16/negation/{name}/rejected"), format!("{} / {}", x.describe(), y.describe())),
             }
@@ -785,6 +788,15 @@ pub fn strategy(max_n: usize) -> impl Strategy<Value = Case> {
                         *x = v;
                     }
                     b.shape = "constant".into();
+                }
+                // and one in sixteen a constant first sample (zero variance: the kind of the result is all that is left)
+                let mut a = a;
+                if perm.len() % 16 == 5 {
+                    let v = a.data[0];
+                    for x in a.data.iter_mut() {
+                        *x = v;
+                    }
+                    a.shape = "constant".into();
                 }
                 Case { a, b, p, conf, e, shift_code, perm }
             })
